@@ -451,27 +451,26 @@ Proof. unfold iteration. intros -> H. cbn [bind]. rewrite H. reflexivity. Qed.
 
 (* ------------------------------------------------------------------ continued runs *)
 
-Lemma save_rows_keys h m : forall l, save_rows h m = Ok l ->
-  forall n c', In (n, c') l -> exists c, In c h /\ c_table c' = c_table c /\ c_id c' = c_id c.
+Lemma clean_handles_keys hs : forall h h1, clean_handles h hs = Ok h1 ->
+  forall c', In c' h1 -> exists c, In c h /\ c_table c' = c_table c /\ c_id c' = c_id c.
 Proof.
-  induction m as [|[k hd] r IH]; intros l H n c' Hin; cbn [save_rows] in H.
-  - injection H as <-. destruct Hin.
-  - destruct (nth_error h hd) as [c|] eqn:Hc; [|discriminate].
-    dbind H as fs. dbind H as rest. injection H as <-.
-    destruct Hin as [Heq|Hin].
-    + injection Heq as _ <-. exists c. split; [eapply nth_error_In; eassumption|]. cbn. auto.
-    + eapply IH; eauto.
+  induction hs as [|x r IH]; intros h h1 H c' Hin; cbn [clean_handles] in H.
+  - injection H as <-. exists c'. auto.
+  - destruct (nth_error h x) as [c|] eqn:Hc; [|discriminate].
+    dbind H as fs. destruct (IH _ _ H c' Hin) as (c1 & Hc1 & Ht & Hi).
+    apply In_nth_error in Hc1. destruct Hc1 as [j Hj]. rewrite nth_error_set_nth in Hj.
+    destruct (Nat.eqb x j) eqn:Ej.
+    + apply Nat.eqb_eq in Ej. subst j. rewrite Hc in Hj. injection Hj as <-.
+      exists c. split; [eapply nth_error_In; eassumption|]. cbn [c_table c_id] in *. auto.
+    + exists c1. split; [eapply nth_error_In; eassumption|auto].
 Qed.
 
 Lemma load_Bd e s c : Bd s -> save s = Ok c -> Bd (load e c).
 Proof.
-  intros (B1 & B2 & B3) H. unfold save in H. dbind H as pn. dbind H as pt. injection H as <-.
-  unfold Bd, load. cbn [heap slots k_p_nicks k_p_tables k_ids]. splits.
+  intros (B1 & B2 & B3) H. unfold save in H. dbind H as h1. injection H as <-.
+  unfold Bd, load. cbn [heap slots k_heap k_ids]. splits.
   - intros c' Hc'. unfold last_id. cbn [ids].
-    apply in_app_or in Hc'. destruct Hc' as [Hc'|Hc']; apply in_map_iff in Hc';
-      destruct Hc' as ([n x] & Hx & Hin); cbn [snd] in Hx; subst x.
-    + destruct (save_rows_keys _ _ _ E _ _ Hin) as (c0 & Hc0 & Ht & Hi). rewrite Ht, Hi. apply B1. exact Hc0.
-    + destruct (save_rows_keys _ _ _ E0 _ _ Hin) as (c0 & Hc0 & Ht & Hi). rewrite Ht, Hi. apply B1. exact Hc0.
+    destruct (clean_handles_keys _ _ _ E _ Hc') as (c0 & Hc0 & Ht & Hi). rewrite Ht, Hi. apply B1. exact Hc0.
   - intros n sl i Hin Ha. unfold fresh_slots in Hin. apply in_map_iff in Hin.
     destruct Hin as ([n' t'] & Heq & _). injection Heq as <- <-. discriminate.
   - intros T. apply B3.
